@@ -9,6 +9,7 @@ import FontVerif.Model.SubsetCmap
 import FontVerif.Lemmas.SubsetCmap12
 import FontVerif.Lemmas.SubsetCmap4
 import FontVerif.Lemmas.SubsetCmap4Top
+import FontVerif.Lemmas.SubsetCmapTable
 set_option linter.unusedVariables false
 namespace FontVerif.C17Cmap
 open FontVerif FontVerif.Cmap FontVerif.SubsetCmap
@@ -172,5 +173,133 @@ example : Listed [(65, 5), (66, 6), (67, 9), (0xFFFF, 2), (0x1F600, 10), (0x1F60
 example : groups12 [(65, 5), (66, 6), (67, 9), (0xFFFF, 2), (0x1F600, 10), (0x1F601, 11), (0x10FFFF, 12)] =
     some [(65, 66, 5), (67, 67, 9), (0xFFFF, 0xFFFF, 2), (0x1F600, 0x1F601, 10), (0x10FFFF, 0x10FFFF, 12)] := by
   decide
+
+/-! ### the table: which encoding records survive, and what they point at -/
+
+/-- `retain_encoding_record_for_subset`: a record is considered at all iff it is one of the four
+Unicode / Windows Unicode records (0,3) (0,4) (3,1) (3,10) or points at a format 14 subtable -/
+theorem encoding_record_rule (r : RecIn) :
+    retainRecord r = true ↔
+      (r.platform = 0 ∧ r.encoding = 3) ∨ (r.platform = 0 ∧ r.encoding = 4) ∨
+      (r.platform = 3 ∧ r.encoding = 1) ∨ (r.platform = 3 ∧ r.encoding = 10) ∨ r.sub.format? = some 14 := by
+  simp [retainRecord, or_assoc]
+
+/-- `Cmap::subset` + `serialize_cmap`, for EVERY list of source records and every plan: if a table is
+produced (`d` = the format 4 subtables were dropped after overflowing 64 KiB), its encoding records are —
+in source order — exactly the retained source records that `survive`:
+a format 4 record survives iff `d` is false and its writer wrote something (its list is non-empty);
+a format 12 record survives unless (`d` false and) `can_drop_format12` holds; a format 14 record
+survives iff some default / non-default table of a requested selector is non-empty; records of other
+formats and unreadable subtables never survive.  And every written record points at the object its
+writer produced from the plan's list restricted to that subtable's own code points (`ObjFor`:
+`Cmap4::serialize` on `list4`, `Cmap12::serialize` on `list12`, `Cmap14::serialize`). -/
+theorem cmap_records_are_survivors (recs : List RecIn) (p : PlanIn) (st : CmapSer) (d : Bool)
+    (h : subsetCmapSt recs p = .ok (st, d)) :
+    st.records.map recKey =
+      ((recs.filter retainRecord).filter (survives p (recs.filter retainRecord) d)).map
+        (fun r => (r.platform, r.encoding)) ∧
+    ∀ x ∈ st.records, ∃ r ∈ recs, retainRecord r = true ∧ (r.platform, r.encoding) = recKey x ∧
+      ∃ o, st.packed[x.2.2]? = some o ∧ ObjFor p r o := by
+  have key : ∀ dd st', serializeCmapGo p (recs.filter retainRecord) dd (recs.filter retainRecord) emptySer = .ok st' →
+      st'.records.map recKey =
+        ((recs.filter retainRecord).filter (survives p (recs.filter retainRecord) dd)).map
+          (fun r => (r.platform, r.encoding)) ∧
+      ∀ x ∈ st'.records, ∃ r ∈ recs, retainRecord r = true ∧ (r.platform, r.encoding) = recKey x ∧
+        ∃ o, st'.packed[x.2.2]? = some o ∧ ObjFor p r o := by
+    intro dd st' hgo
+    obtain ⟨h1, h2⟩ := serializeCmapGo_spec p _ dd _ emptySer st' (fun r hr => hr)
+      (fun x hx => by simp [emptySer] at hx) hgo
+    refine ⟨by simpa [emptySer] using h1, fun x hx => ?_⟩
+    obtain ⟨r, hr, hk, o, ho1, ho2⟩ := h2 x hx
+    have hr' := List.mem_filter.1 hr
+    exact ⟨r, hr'.1, hr'.2, hk, o, ho1, ho2⟩
+  unfold subsetCmapSt at h
+  simp only [] at h
+  split at h
+  · cases h
+  · split at h
+    · cases h
+    · unfold serializeCmapSt at h
+      simp only [] at h
+      split at h
+      · cases h
+      · rename_i st0 hgo
+        split at h
+        · cases h
+        · split at h
+          · cases h
+          · cases h
+            exact key false st hgo
+      · split at h
+        · cases h
+        · cases h
+        · rename_i st1 hgo1
+          split at h
+          · cases h
+          · split at h
+            · cases h
+            · cases h
+              exact key true st hgo1
+      · cases h
+
+/-- when a table is produced the source has a BMP Unicode record or a format 12 subtable, and a
+format 12 subtable only together with a full-repertoire record ((0,4) or (3,10)) — the refusal rules -/
+theorem cmap_produced_only_with_unicode_records (recs : List RecIn) (p : PlanIn) (res : CmapSer × Bool)
+    (h : subsetCmapSt recs p = .ok res) :
+    ((recs.filter retainRecord).any (fun r => r.sub.format? == some 12) ∨
+      (recs.filter retainRecord).any (fun r => r.platform == 0 && r.encoding == 3) ∨
+      (recs.filter retainRecord).any (fun r => r.platform == 3 && r.encoding == 1)) ∧
+    ((recs.filter retainRecord).any (fun r => r.sub.format? == some 12) = true →
+      (recs.filter retainRecord).any (fun r => r.platform == 0 && r.encoding == 4) ∨
+      (recs.filter retainRecord).any (fun r => r.platform == 3 && r.encoding == 10)) := by
+  unfold subsetCmapSt at h
+  simp only [] at h
+  split at h
+  · cases h
+  · rename_i h1
+    split at h
+    · cases h
+    · rename_i h2
+      constructor
+      · by_cases a : (recs.filter retainRecord).any (fun r => r.sub.format? == some 12) = true
+        · exact Or.inl a
+        · by_cases b : (recs.filter retainRecord).any (fun r => r.platform == 0 && r.encoding == 3) = true
+          · exact Or.inr (Or.inl b)
+          · by_cases c : (recs.filter retainRecord).any (fun r => r.platform == 3 && r.encoding == 1) = true
+            · exact Or.inr (Or.inr c)
+            · simp_all
+      · intro a
+        by_cases b : (recs.filter retainRecord).any (fun r => r.platform == 0 && r.encoding == 4) = true
+        · exact Or.inl b
+        · by_cases c : (recs.filter retainRecord).any (fun r => r.platform == 3 && r.encoding == 10) = true
+          · exact Or.inr c
+          · simp_all
+
+/-! ### format 14: non-default UVS -/
+
+/-- `copy_non_default_uvs`, for every source table and plan: if it does not hit its `unwrap`, the
+mappings it writes are exactly the source mappings whose character is in the plan's unicodes or whose
+glyph was requested (`keepNonDefault`), in source order, each glyph id replaced by its image under the
+plan's glyph map (as a `u16`) -/
+theorem uvs_non_default_retained (p : PlanIn) (maps : List (Nat × Nat)) (b : List Nat) (n : Nat)
+    (h : copyNonDefault p maps = some (b, n)) :
+    n = (maps.filter (keepNonDefault p)).length ∧
+    ∃ news : List Nat, news.length = n ∧
+      (∀ k (hk : k < n), ∃ hk' : k < (maps.filter (keepNonDefault p)).length,
+        lookupMap p.glyphMap ((maps.filter (keepNonDefault p))[k]).2 = news[k]?) ∧
+      b = (List.zip (maps.filter (keepNonDefault p)) news).flatMap
+            (fun x => be24 x.1.1 ++ be16 (x.2 % 65536)) :=
+  copyNonDefault_spec p maps b n h
+
+/-- non-vacuity: one mapping kept through its character, one dropped, one kept through its glyph -/
+def examplePlan : PlanIn :=
+  { unicodes := [0x4E00, 0xFE00], u2g := [], glyphsRequested := [9], glyphMap := [(7, 1), (9, 2)], numGlyphs := 10 }
+
+example : copyNonDefault examplePlan [(0x4E00, 7), (0x4E01, 8), (0x4E02, 9)] =
+    some ([0, 0x4E, 0, 0, 1, 0, 0x4E, 2, 0, 2], 2) := by decide
+
+example : survives examplePlan [] false ⟨1, 0, .other 6 0⟩ = false := by decide
+example : retainRecord ⟨3, 10, .unreadable⟩ = true ∧ retainRecord ⟨1, 0, .other 6 0⟩ = false ∧
+    retainRecord ⟨0, 5, .f14 []⟩ = true := by decide
 
 end FontVerif.C17Cmap
